@@ -593,4 +593,252 @@ Section Congruence.
         by (intros; rewrite (embedA_out i Ei); ring).
       rewrite (sum_unit_l co Ath d) by assumption. rewrite (sumn_zero co Ath). ring.
   Qed.
+
+  (* ================= the passive path: _apply_passive_linear_to_C_and_G ================= *)
+  (* congruence by the embedded matrix alone (no active part):
+       C' = conj(Pf) C Pf^T,  G' = Pf G Pf^T *)
+  Definition C_pspec (i j : nat) : A := bil d (cj (embedP i)) Cm (embedP j).
+  Definition G_pspec (i j : nat) : A := bil d (embedP i) Gm (embedP j).
+
+  Lemma pblock_C_spec : forall a b, a < k -> b < k ->
+    get (passive_block_C co k P (read_block co C modes)) a b = C_pspec (md a) (md b).
+  Proof.
+    intros a b Ha Hb. unfold passive_block_C, C_pspec.
+    assert (Ea := pos_nth modes a Hnd Ha). assert (Eb := pos_nth modes b Hnd Hb).
+    apply (mm3_spec _ _ _ a b _ _ Cm (fun c => conj (get P a c)) (fun c => get P b c)); auto.
+    + apply (cj_embedP_in _ a Ea). + apply (embedP_in _ b Eb).
+    + intros. apply get_mcj; assumption. + apply rb_C.
+    + intros. apply get_mtr; assumption.
+  Qed.
+  Lemma pblock_G_spec : forall a b, a < k -> b < k ->
+    get (passive_block_G co k P (read_block co G modes)) a b = G_pspec (md a) (md b).
+  Proof.
+    intros a b Ha Hb. unfold passive_block_G, G_pspec.
+    assert (Ea := pos_nth modes a Hnd Ha). assert (Eb := pos_nth modes b Hnd Hb).
+    apply (mm3_spec _ _ _ a b _ _ Gm (fun c => get P a c) (fun c => get P b c)); auto.
+    + apply (embedP_in _ a Ea). + apply (embedP_in _ b Eb). + apply rb_G.
+    + intros. apply get_mtr; assumption.
+  Qed.
+
+  Lemma G_pspec_row_out : forall i a j, pos i modes = Some a -> j < d -> pos j modes = None ->
+    G_pspec i j = sumn k (fun c => get P a c * get G (md c) j).
+  Proof.
+    intros i a j Ei Hj Ej. unfold G_pspec.
+    destruct (bil_out (embedP i) Gm j Hj Ej) as [-> _].
+    rewrite (bil_ext co d (embedP i) (rowE modes (fun c => get P a c)) Gm Gm (unit j) (unit j))
+      by (intros; auto; apply (embedP_in i a Ei)).
+    rewrite bil_rowE_unit by assumption. reflexivity.
+  Qed.
+  Lemma C_pspec_row_out : forall i a j, pos i modes = Some a -> j < d -> pos j modes = None ->
+    C_pspec i j = sumn k (fun c => conj (get P a c) * get C (md c) j).
+  Proof.
+    intros i a j Ei Hj Ej. unfold C_pspec.
+    destruct (bil_out (cj (embedP i)) Cm j Hj Ej) as [-> _].
+    rewrite (bil_ext co d (cj (embedP i)) (rowE modes (fun c => conj (get P a c))) Cm Cm (unit j) (unit j))
+      by (intros; auto; apply (cj_embedP_in i a Ei)).
+    rewrite bil_rowE_unit by assumption. reflexivity.
+  Qed.
+  Lemma pspec_out_out : forall i j, i < d -> j < d -> pos i modes = None -> pos j modes = None ->
+    G_pspec i j = get G i j /\ C_pspec i j = get C i j.
+  Proof.
+    intros i j Hi Hj Ei Ej. unfold G_pspec, C_pspec.
+    destruct (bil_out (embedP i) Gm j Hj Ej) as [-> _].
+    destruct (bil_out (cj (embedP i)) Cm j Hj Ej) as [-> _].
+    rewrite (bil_ext co d (embedP i) (unit i) Gm Gm (unit j) (unit j))
+      by (intros; auto; apply (embedP_out i Ei)).
+    rewrite (bil_ext co d (cj (embedP i)) (unit i) Cm Cm (unit j) (unit j)).
+    2:{ intros t _. unfold cj. rewrite (embedP_out i Ei). unfold SumLemmas.unit.
+        destruct (Nat.eqb t i); [apply conj_1|apply conj_0]. }
+    2:{ auto. } 2:{ auto. }
+    rewrite !bil_unit_unit by assumption. split; reflexivity.
+  Qed.
+  Lemma G_pspec_sym : forall i j, i < d -> j < d -> G_pspec j i = G_pspec i j.
+  Proof.
+    intros i j Hi Hj. unfold G_pspec.
+    rewrite (bil_transpose co Ath d (embedP j) Gm (embedP i)).
+    apply (bil_ext co); auto; intros k0 l Hk Hl; unfold Gm; apply G_sym; assumption.
+  Qed.
+  Lemma C_pspec_herm : forall i j, i < d -> j < d -> conj (C_pspec j i) = C_pspec i j.
+  Proof.
+    intros i j Hi Hj. unfold C_pspec.
+    rewrite (bil_conj co conj_0 conj_add conj_mul).
+    rewrite (bil_transpose co Ath d (fun k0 => conj (cj (embedP j) k0))).
+    apply (bil_ext co).
+    - auto.
+    - intros; unfold Cm; apply C_herm; assumption.
+    - intros; unfold cj; apply conj_conj.
+  Qed.
+
+  Local Notation pG1 := (assign_block co d G modes (passive_block_G co k P (read_block co G modes))).
+  Local Notation pC1 := (assign_block co d C modes (passive_block_C co k P (read_block co C modes))).
+
+  Lemma get_pG1 : forall i j, i < d -> j < d ->
+    get pG1 i j = match pos i modes, pos j modes with Some _, Some _ => G_pspec i j | _, _ => get G i j end.
+  Proof.
+    intros i j Hi Hj. rewrite get_assign_block by assumption.
+    destruct (pos i modes) as [a|] eqn:Ei; [|reflexivity].
+    destruct (pos j modes) as [b|] eqn:Ej; [|reflexivity].
+    destruct (pos_Some _ _ _ Ei) as [Ha Hna]. destruct (pos_Some _ _ _ Ej) as [Hb Hnb].
+    rewrite (pblock_G_spec a b Ha Hb). rewrite Hna, Hnb. reflexivity.
+  Qed.
+  Lemma get_pC1 : forall i j, i < d -> j < d ->
+    get pC1 i j = match pos i modes, pos j modes with Some _, Some _ => C_pspec i j | _, _ => get C i j end.
+  Proof.
+    intros i j Hi Hj. rewrite get_assign_block by assumption.
+    destruct (pos i modes) as [a|] eqn:Ei; [|reflexivity].
+    destruct (pos j modes) as [b|] eqn:Ej; [|reflexivity].
+    destruct (pos_Some _ _ _ Ei) as [Ha Hna]. destruct (pos_Some _ _ _ Ej) as [Hb Hnb].
+    rewrite (pblock_C_spec a b Ha Hb). rewrite Hna, Hnb. reflexivity.
+  Qed.
+
+  Local Notation pG2 := (assign_aux co d pG1 modes aux
+     (mmul co k k (length aux) P (read_aux co pG1 modes aux))).
+  Local Notation pC2 := (assign_aux co d pC1 modes aux
+     (mmul co k k (length aux) (mcj co k k P) (read_aux co pC1 modes aux))).
+
+  Lemma rows_pG2 : forall i a j, pos i modes = Some a -> j < d -> get pG2 i j = G_pspec i j.
+  Proof.
+    intros i a j Ei Hj. destruct (pos_Some _ _ _ Ei) as [Ha Hna].
+    assert (Hi : i < d) by (rewrite <- Hna; apply md_lt; exact Ha).
+    rewrite get_assign_aux by assumption. rewrite Ei.
+    destruct (pos j modes) as [b|] eqn:Ej.
+    - rewrite (aux_pos_in j b Ej). rewrite get_pG1 by assumption. rewrite Ei, Ej. reflexivity.
+    - destruct (aux_pos_out j Hj Ej) as [b' Eb']. rewrite Eb'.
+      destruct (pos_Some _ _ _ Eb') as [Hb' Hnb'].
+      rewrite get_mmul by assumption.
+      rewrite (G_pspec_row_out i a j Ei Hj Ej).
+      apply (sumn_ext co); intros c Hc; rewrite get_read_aux by assumption; rewrite Hnb'.
+      rewrite get_pG1 by (try apply md_lt; assumption). rewrite Ej.
+      destruct (pos (nth c modes O) modes); reflexivity.
+  Qed.
+  Lemma rows_pC2 : forall i a j, pos i modes = Some a -> j < d -> get pC2 i j = C_pspec i j.
+  Proof.
+    intros i a j Ei Hj. destruct (pos_Some _ _ _ Ei) as [Ha Hna].
+    assert (Hi : i < d) by (rewrite <- Hna; apply md_lt; exact Ha).
+    rewrite get_assign_aux by assumption. rewrite Ei.
+    destruct (pos j modes) as [b|] eqn:Ej.
+    - rewrite (aux_pos_in j b Ej). rewrite get_pC1 by assumption. rewrite Ei, Ej. reflexivity.
+    - destruct (aux_pos_out j Hj Ej) as [b' Eb']. rewrite Eb'.
+      destruct (pos_Some _ _ _ Eb') as [Hb' Hnb'].
+      rewrite get_mmul by assumption.
+      rewrite (C_pspec_row_out i a j Ei Hj Ej).
+      apply (sumn_ext co); intros c Hc; rewrite get_read_aux by assumption; rewrite Hnb';
+        rewrite get_mcj by assumption.
+      rewrite get_pC1 by (try apply md_lt; assumption). rewrite Ej.
+      destruct (pos (nth c modes O) modes); reflexivity.
+  Qed.
+  Lemma other_prows : forall i j, pos i modes = None -> i < d -> j < d ->
+    get pG2 i j = get G i j /\ get pC2 i j = get C i j.
+  Proof.
+    intros i j Ei Hi Hj. rewrite !get_assign_aux by assumption. rewrite Ei.
+    rewrite get_pG1, get_pC1 by assumption. rewrite Ei. split; reflexivity.
+  Qed.
+
+  (* simulation_steps.py:_apply_passive_linear_to_C_and_G equals the congruence by the embedded
+     matrix, entry by entry, for every d and every duplicate-free tuple of modes in any order *)
+  Theorem passive_CG_is_congruence : forall i j, i < d -> j < d ->
+    get (fst (apply_passive_CG co d P modes C G)) i j = C_pspec i j /\
+    get (snd (apply_passive_CG co d P modes C G)) i j = G_pspec i j.
+  Proof.
+    intros i j Hi Hj. unfold apply_passive_CG. cbv zeta.
+    destruct (aux_modes d modes) as [|x l] eqn:Eaux.
+    - cbn [fst snd]. rewrite get_pC1, get_pG1 by assumption.
+      destruct (pos i modes) as [a|] eqn:Ei.
+      + destruct (pos j modes) as [b|] eqn:Ej; [split; reflexivity|].
+        destruct (aux_pos_out j Hj Ej) as [b' Eb']. rewrite Eaux in Eb'. discriminate.
+      + destruct (aux_pos_out i Hi Ei) as [b' Eb']. rewrite Eaux in Eb'. discriminate.
+    - rewrite <- Eaux. unfold apply_passive_aux. cbv zeta. cbn [fst snd].
+      rewrite get_mirror_C, get_mirror_G by assumption.
+      destruct (pos j modes) as [b|] eqn:Ej.
+      + rewrite (rows_pC2 j b i Ej Hi), (rows_pG2 j b i Ej Hi).
+        split; [apply C_pspec_herm; assumption|apply G_pspec_sym; assumption].
+      + destruct (pos i modes) as [a|] eqn:Ei.
+        * rewrite (rows_pC2 i a j Ei Hj), (rows_pG2 i a j Ei Hj). split; reflexivity.
+        * destruct (other_prows i j Ei Hi Hj) as [-> ->].
+          destruct (pspec_out_out i j Hi Hj Ei Ej) as [-> ->]. split; reflexivity.
+  Qed.
+
+  Theorem passive_herm_sym_invariant : forall i j, i < d -> j < d ->
+    conj (get (fst (apply_passive_CG co d P modes C G)) j i)
+      = get (fst (apply_passive_CG co d P modes C G)) i j /\
+    get (snd (apply_passive_CG co d P modes C G)) j i
+      = get (snd (apply_passive_CG co d P modes C G)) i j.
+  Proof.
+    intros i j Hi Hj.
+    destruct (passive_CG_is_congruence i j Hi Hj) as [-> ->].
+    destruct (passive_CG_is_congruence j i Hj Hi) as [-> ->].
+    split; [apply C_pspec_herm; assumption|apply G_pspec_sym; assumption].
+  Qed.
+
+  (* the mean: m' = Pf m  (simulation_steps.py:_apply_passive_linear) *)
+  Theorem passive_mean_is_congruence : forall (m : vec (A := A)) i, i < d ->
+    getv co (assign_vec co d m modes (mvmul co k k P (read_vec co m modes))) i
+    = sumn d (fun t => embedP i t * getv co m t).
+  Proof.
+    intros m i Hi. unfold assign_vec. rewrite (getv_mkv co) by assumption.
+    destruct (pos i modes) as [a|] eqn:Ei.
+    - destruct (pos_Some _ _ _ Ei) as [Ha Hna].
+      unfold mvmul. rewrite (getv_mkv co) by assumption.
+      rewrite (sumn_ext co d _ (fun t => rowE modes (fun c => get P a c) t * getv co m t))
+        by (intros; rewrite (embedP_in i a Ei); reflexivity).
+      rewrite (sum_rowE_l co Ath modes d Hnd Hlt).
+      apply (sumn_ext co); intros c Hc.
+      unfold read_vec. rewrite (getv_mkv co) by assumption. reflexivity.
+    - rewrite (sumn_ext co d _ (fun t => unit i t * getv co m t))
+        by (intros; rewrite (embedP_out i Ei); reflexivity).
+      rewrite (sum_unit_l co Ath d) by assumption. reflexivity.
+  Qed.
+
+  (* the first symplectic condition, embedded:  Pf Pf^dagger = I + Af Af^dagger *)
+  Lemma conj_unit : forall i t, conj (unit i t) = unit i t.
+  Proof. intros. unfold SumLemmas.unit. destruct (Nat.eqb t i); [apply conj_1|apply conj_0]. Qed.
+
+  Lemma embed_PPd :
+    (forall a b, a < k -> b < k ->
+       sumn k (fun c => get P a c * conj (get P b c))
+       = (if Nat.eqb a b then 1 else 0) + sumn k (fun c => get Am a c * conj (get Am b c))) ->
+    forall i j, i < d -> j < d ->
+      sumn d (fun t => embedP i t * conj (embedP j t))
+      = (if Nat.eqb i j then 1 else 0) + sumn d (fun t => embedA i t * conj (embedA j t)).
+  Proof.
+    intros Hk i j Hi Hj.
+    destruct (pos i modes) as [a|] eqn:Ei; destruct (pos j modes) as [b|] eqn:Ej.
+    - destruct (pos_Some _ _ _ Ei) as [Ha Hna]. destruct (pos_Some _ _ _ Ej) as [Hb Hnb].
+      rewrite (sumn_ext co d _ (fun t => rowE modes (fun c => get P a c) t * rowE modes (fun c => conj (get P b c)) t))
+        by (intros; rewrite (embedP_in i a Ei), (embedP_in j b Ej), cj_rowE; reflexivity).
+      rewrite (sumn_ext co d (fun t => embedA i t * conj (embedA j t))
+                 (fun t => rowE modes (fun c => get Am a c) t * rowE modes (fun c => conj (get Am b c)) t))
+        by (intros; rewrite (embedA_in i a Ei), (embedA_in j b Ej), cj_rowE; reflexivity).
+      rewrite !dot_rowE_rowE. rewrite (Hk a b Ha Hb).
+      rewrite <- Hna, <- Hnb. rewrite (nth_eqb_nodup modes a b Hnd Ha Hb). reflexivity.
+    - rewrite (sumn_ext co d _ (fun t => embedP i t * unit j t))
+        by (intros; rewrite (embedP_out j Ej), conj_unit; reflexivity).
+      rewrite (sum_unit_r co Ath d) by assumption.
+      rewrite (sumn_ext co d (fun t => embedA i t * conj (embedA j t)) (fun _ => 0))
+        by (intros; rewrite (embedA_out j Ej), conj_0; ring).
+      rewrite (sumn_zero co Ath).
+      unfold embedP. rewrite ?Ei, ?Ej. ring.
+    - rewrite (sumn_ext co d _ (fun t => unit i t * conj (embedP j t)))
+        by (intros; rewrite (embedP_out i Ei); reflexivity).
+      rewrite (sum_unit_l co Ath d) by assumption.
+      rewrite (sumn_ext co d (fun t => embedA i t * conj (embedA j t)) (fun _ => 0))
+        by (intros; rewrite (embedA_out i Ei); ring).
+      rewrite (sumn_zero co Ath).
+      unfold embedP. rewrite ?Ej, ?Ei.
+      destruct (Nat.eqb j i) eqn:E1; destruct (Nat.eqb i j) eqn:E2;
+        rewrite ?conj_0, ?conj_1; try ring;
+        apply Nat.eqb_eq in E1 || apply Nat.eqb_eq in E2; subst;
+        rewrite Nat.eqb_refl in *; discriminate.
+    - rewrite (sumn_ext co d _ (fun t => unit i t * conj (embedP j t)))
+        by (intros; rewrite (embedP_out i Ei); reflexivity).
+      rewrite (sum_unit_l co Ath d) by assumption.
+      rewrite (sumn_ext co d (fun t => embedA i t * conj (embedA j t)) (fun _ => 0))
+        by (intros; rewrite (embedA_out i Ei); ring).
+      rewrite (sumn_zero co Ath).
+      unfold embedP. rewrite ?Ej, ?Ei.
+      destruct (Nat.eqb j i) eqn:E1; destruct (Nat.eqb i j) eqn:E2;
+        rewrite ?conj_0, ?conj_1; try ring;
+        apply Nat.eqb_eq in E1 || apply Nat.eqb_eq in E2; subst;
+        rewrite Nat.eqb_refl in *; discriminate.
+  Qed.
 End Congruence.
